@@ -178,22 +178,23 @@ Proof. unfold append_flat. apply fold_left_app. Qed.
 (** ** the simulation *)
 Section Sim.
   Variables (S : schema) (D : document) (E : env).
-  Hypothesis Hconds : conds_ok S D E = true.
+  Variable b : bool.   (* with or without the directive conjunct: the collection does not care *)
+  Hypothesis Hconds : conds_gen S D E b = true.
 
   Definition subs_ok (flat : list (name * fnode)) : Prop :=
-    Forall (fun kf => forallb (sel_conds_ok S E) (fn_sub (snd kf)) = true) flat.
+    Forall (fun kf => forallb (sel_conds_gen S E b) (fn_sub (snd kf)) = true) flat.
 
   Lemma frag_conds_ok n f :
     find_frag n (frags D) = Some f ->
-    cond_ok S (fr_cond f) = true /\ forallb (sel_conds_ok S E) (fr_sels f) = true.
+    cond_ok S (fr_cond f) = true /\ forallb (sel_conds_gen S E b) (fr_sels f) = true.
   Proof.
     intro Hf. apply find_frag_in in Hf.
-    unfold conds_ok in Hconds. apply andb_true_iff in Hconds as [_ H2].
+    unfold conds_gen in Hconds. apply andb_true_iff in Hconds as [_ H2].
     rewrite forallb_forall in H2. specialize (H2 f Hf). apply andb_true_iff in H2. exact H2.
   Qed.
 
   Lemma collect_sim fuel : forall ot sels visited g v flat,
-    forallb (sel_conds_ok S E) sels = true ->
+    forallb (sel_conds_gen S E b) sels = true ->
     s_collect_flat S D E fuel ot sels visited = Some (v, flat) ->
     collect_impl S D E fuel ot sels visited g = COk v (append_flat flat g) /\ subs_ok flat.
   Proof.
@@ -206,7 +207,7 @@ Section Sim.
         cbv zeta in Hs |- *.
         destruct (s_excluded E (sel_dirs s)); [apply IH; assumption|].
         destruct s as [a n p ds sub|n p ds|tc p ds sub];
-          (cbn [sel_conds_ok] in Hs1; apply andb_true_iff in Hs1 as [Hdirs Hs1]).
+          (cbn [sel_conds_gen] in Hs1; apply andb_true_iff in Hs1 as [Hdirs Hs1]).
         * destruct (s_collect_flat S D E 0 ot rest visited) as [[v' l]|] eqn:Er; [|discriminate].
           inversion Hs; subst. destruct (IH visited (gfs_append (response_key a n) {| fn_name := n; fn_pos := p; fn_sub := sub |} g) _ _ Hrest Er) as [H1 H2].
           rewrite H1. split; [reflexivity|]. constructor; [exact Hs1|exact H2].
@@ -216,7 +217,7 @@ Section Sim.
           rewrite (type_applies_eq _ _ _ Hc).
           destruct (s_applies S ot (fr_cond f)); [discriminate|apply IH; assumption].
         * destruct tc as [c|]; [|discriminate].
-          cbn [sel_conds_ok] in Hs1. apply andb_true_iff in Hs1 as [Hc _].
+          cbn [sel_conds_gen] in Hs1. apply andb_true_iff in Hs1 as [Hc _].
           rewrite (type_applies_eq _ _ _ Hc).
           destruct (s_applies S ot c); [discriminate|apply IH; assumption].
     - intros ot sels. induction sels as [|s rest IH]; intros visited g v flat Hok Hs.
@@ -226,7 +227,7 @@ Section Sim.
         cbv zeta in Hs |- *.
         destruct (s_excluded E (sel_dirs s)); [apply IH; assumption|].
         assert (Hfrag : forall sub visited',
-                   forallb (sel_conds_ok S E) sub = true ->
+                   forallb (sel_conds_gen S E b) sub = true ->
                    match s_collect_flat S D E fuel ot sub visited' with
                    | Some (v0, l) => match s_collect_flat S D E (Datatypes.S fuel) ot rest v0 with
                                      | Some (v1, l0) => Some (v1, l ++ l0)
@@ -247,7 +248,7 @@ Section Sim.
           destruct (IH v0 (append_flat l g) _ _ Hrest Er) as [H3 H4]. rewrite H3.
           rewrite append_flat_app. split; [reflexivity|]. apply Forall_app. split; assumption. }
         destruct s as [a n p ds sub|n p ds|tc p ds sub];
-          (cbn [sel_conds_ok] in Hs1; apply andb_true_iff in Hs1 as [Hdirs Hs1]).
+          (cbn [sel_conds_gen] in Hs1; apply andb_true_iff in Hs1 as [Hdirs Hs1]).
         * destruct (s_collect_flat S D E (Datatypes.S fuel) ot rest visited) as [[v' l]|] eqn:Er; [|discriminate].
           inversion Hs; subst. destruct (IH visited (gfs_append (response_key a n) {| fn_name := n; fn_pos := p; fn_sub := sub |} g) _ _ Hrest Er) as [H1 H2].
           rewrite H1. split; [reflexivity|]. constructor; [exact Hs1|exact H2].
@@ -257,7 +258,7 @@ Section Sim.
           rewrite (type_applies_eq _ _ _ Hc).
           destruct (s_applies S ot (fr_cond f)); [|apply IH; assumption].
           apply Hfrag; assumption.
-        * cbn [sel_conds_ok] in Hs1. apply andb_true_iff in Hs1 as [Hc Hsub].
+        * cbn [sel_conds_gen] in Hs1. apply andb_true_iff in Hs1 as [Hc Hsub].
           destruct tc as [c|].
           -- rewrite (type_applies_eq _ _ _ Hc).
              destruct (s_applies S ot c); [|apply IH; assumption].
